@@ -47,6 +47,13 @@ def _write_all(fp, payload, how):
     if how == "buffered":
         fp.write(payload)
         return
+    if how.startswith("chunks:"):
+        # the documented way: a loop of fp.write(chunk) on the buffered stream
+        chunk = int(how.split(":")[2])
+        for pos in range(0, n, chunk):
+            k = fp.write(payload[pos:pos + chunk])
+            assert k == len(payload[pos:pos + chunk])
+        return
     pos = 0
     while pos < n:
         k = fp.write(payload[pos:pos + 7])
@@ -67,7 +74,11 @@ def download(n, blks, crc, how, lose=(), final_loss=False):
     tag = "C12/download/%s" % ("loss" if lose else "clean")
     ok = True
     try:
-        fp = rig.client.open(idx, sub, "wb", buffering=(1024 if how == "buffered" else 0), size=n,
+        if how.startswith("chunks:"):
+            buffering = int(how.split(":")[1])
+        else:
+            buffering = 1024 if how == "buffered" else 0
+        fp = rig.client.open(idx, sub, "wb", buffering=buffering, size=n,
                              block_transfer=True, request_crc_support=True)
         try:
             _write_all(fp, payload, how)
@@ -110,10 +121,17 @@ def ack_step(nblk):
     class Net:
         def send_message(self, cid, data, remote=False):
             sent.append(data)
+            if len(sent) == 1:      # answer the initiate so that the stream is built by its own constructor
+                client.on_response(0x582, bytes([0xA0, 0x00, 0x20, 0x00, 127, 0, 0, 0]), 0.0)
     client = SdoClient(0x602, 0x582, C.odmod().ObjectDictionary())
     client.network = Net()
-    s = BDS.__new__(BDS)
-    s.sdo_client = client
+    s = BDS(client, 0x2000, 0, None, request_crc_support=False)
+    del sent[:]
+    if not all(hasattr(s, a) for a in ("_blksize", "_seqno", "size", "pos", "_done", "_crc", "_last_bytes_sent",
+                                       "_retransmitting", "crc_supported", "_current_block")):
+        for m in ("ack-complete", "ack-retransmit", "ack-rejected"):
+            sx.not_applicable(m, "BlockDownloadStream keeps its sub-block state differently")
+        return
     blksize = sx.fresh_int("blksize", 1, 127)
     s._blksize = blksize
     s._seqno = blksize
@@ -194,6 +212,28 @@ def jobs(tier):
                 continue
             out.append(dict(func="download", params=dict(n=n, blks=blks, crc=1, how="buffered", lose=[k],
                                                          final_loss=fin), weight=n))
+    # payload written the documented way: a loop of fp.write(chunk) on the buffered stream (buffer sizes that are
+    # and are not multiples of 7, chunks smaller than / equal to / larger than the buffer), undisturbed and with one
+    # lost segment in a non-final sub-block (the buffered writer hands views of its recycled buffer to raw.write)
+    chunked = [(70, [4], 14, 7), (70, [4], 16, 16), (100, [127], 16, 5), (100, [3, 5], 10, 25), (64, [5], 21, 3),
+               (3000, [127], 1024, 1024)]
+    if not q:
+        chunked += [(500, [10], 49, 7), (1000, [127], 14, 7), (3000, [127], 1022, 511), (3000, [20, 33, 7], 700, 70),
+                    (5000, [127], 1024, 512), (200, [2], 8, 8), (200, [6], 1024, 64), (10000, [127], 8192, 4096)]
+    for n, blks, bsz, chunk in chunked:
+        how = "chunks:%d:%d" % (bsz, chunk)
+        for crc in (1, 0):
+            out.append(dict(func="download", params=dict(n=n, blks=blks, crc=crc, how=how), weight=n))
+        nsegs = -(-n // 7)
+        b0 = blks[0]
+        if len(blks) == 1 and nsegs > b0:
+            nfinal = (nsegs - 1) % b0 + 1
+            ks = [k for k in range(nsegs - nfinal)]
+            if len(ks) > 12:
+                ks = ks[:4] + ks[len(ks) // 2 - 2:len(ks) // 2 + 2] + ks[-4:]
+            for k in ks:
+                for crc in ((1, 0) if n <= 100 else (0,)):
+                    out.append(dict(func="download", params=dict(n=n, blks=blks, crc=crc, how=how, lose=[k]), weight=n))
     if not q:
         for n in (1, 7, 8, 14, 15, 22, 29, 35):
             for crc in (1, 0):
